@@ -281,6 +281,57 @@ func runSXOn(oneCPU bool, stdin []byte, timeout time.Duration, args ...string) s
 	return p.wait(timeout)
 }
 
+// decoy: ONE listener that is never a target.  Every sx process the harness starts runs in an environment whose
+// proxy / docker-client variables point at it (as an operator's shell may have them set); whatever connects to it
+// was sent to a destination outside the target set.
+var (
+	decoyOnce sync.Once
+	decoyAddr string
+	decoyMu   sync.Mutex
+	decoyN    int
+)
+
+func startDecoy() {
+	decoyOnce.Do(func() {
+		l, err := net.Listen("tcp4", "127.0.0.1:0")
+		if err != nil {
+			return
+		}
+		decoyAddr = l.Addr().String()
+		go func() {
+			for {
+				c, err := l.Accept()
+				if err != nil {
+					return
+				}
+				decoyMu.Lock()
+				decoyN++
+				decoyMu.Unlock()
+				c.Close()
+			}
+		}()
+	})
+}
+
+// decoyHits returns (and resets) the number of connections the decoy has seen
+func decoyHits() int {
+	decoyMu.Lock()
+	defer decoyMu.Unlock()
+	n := decoyN
+	decoyN = 0
+	return n
+}
+
+func hostileEnv() []string {
+	startDecoy()
+	if decoyAddr == "" {
+		return nil
+	}
+	return []string{"HTTP_PROXY=http://" + decoyAddr, "http_proxy=http://" + decoyAddr, "HTTPS_PROXY=http://" + decoyAddr,
+		"https_proxy=http://" + decoyAddr, "ALL_PROXY=socks5://" + decoyAddr, "all_proxy=socks5://" + decoyAddr,
+		"NO_PROXY=", "no_proxy=", "DOCKER_HOST=tcp://" + decoyAddr}
+}
+
 // a running sx process
 type sxProc struct {
 	cmd    *exec.Cmd
@@ -326,6 +377,7 @@ func startSX(oneCPU bool, stdin []byte, args ...string) (*sxProc, error) {
 		p.cmd = exec.Command(bin, args...)
 	}
 	p.cmd.Stdout, p.cmd.Stderr = &p.so, &p.se
+	p.cmd.Env = append(os.Environ(), hostileEnv()...)
 	if stdin != nil {
 		p.cmd.Stdin = bytes.NewReader(stdin)
 	}
